@@ -1820,6 +1820,24 @@ def _c20_pty_cases(chk, out, n):
                        {"k": "enter", "c": ""}], "single40"))
     cases.append(([], [{"k": "char", "c": c} for c in long_line] + [{"k": "backspace", "c": ""}] * 3 + [{"k": "char", "c": "Z"}, {"k": "enter", "c": ""}], "burst40"))
 
+    # a terminal speaking the keyboard-enhancement protocol: presses, auto-repeats of a held key and releases arrive as CSI sequences.
+    # A repeat is a key press; a release is nothing.  (`w` and `rel` only choose the bytes on the wire; the model sees the same keys.)
+    def held(k, times):
+        return [dict(k, w="press")] + [dict(k, w="repeat") for _ in range(times - 1)]
+    ch = lambda c: {"k": "char", "c": c}
+    ed = lambda name: {"k": name, "c": ""}
+    cases.append(([], [ch("a"), ch("b")] + held(ch("Z"), 4) + held(ed("left"), 3) + [ch("9")] + held(ed("backspace"), 2) + [ed("enter")], "single"))
+    cases.append((["a b", "Z9"], held(ed("up"), 2) + held(ed("ctrlleft"), 2) + held(ed("delete"), 2) + held(ch("\u00e9"), 3) + held(ed("right"), 2) + [dict(ed("enter"), w="press")], "single"))
+    cases.append(([], [dict(ch(c), w="press", rel=1) for c in "ab Z"] + [dict(ed("left"), w="press", rel=1), dict(ch("9"), rel=1, w="press"), dict(ed("enter"), w="press", rel=1)], "single"))
+    for i in range(max(2, n // 5)):
+        keys = []
+        for _ in range(rnd.randint(3, 9)):
+            k = ch(rnd.choice(alphabet[:7])) if rnd.random() < 0.5 else ed(rnd.choice(edit[:8]))
+            r = rnd.random()
+            keys += held(k, rnd.randint(2, 4)) if r < 0.4 else [dict(k, w="press", rel=1)] if r < 0.7 else [k]
+        keys.append(ed("enter"))
+        cases.append(([rand_line()] if i % 2 else [], keys, "burst" if i % 2 else "single"))
+
     def run(job):
         i, (hist, keys, mode) = job
         cols = 40 if mode.endswith("40") else 0
